@@ -1,5 +1,5 @@
 #!/bin/bash
-# tools/all_mutants.sh [tier] : runs every stored seeded change against the check
+# [ONLY=<regex>] tools/all_mutants.sh [tier] : runs every stored seeded change against the check
 # of its property (scratch worktrees, 7 at a time) and prints one line each.
 TIER=${1:-quick}
 cd /verif
@@ -8,6 +8,9 @@ ls seeded | grep -v -e README -e LAST_REGRESSION | while read id; do
   case "$id" in C07r2-B) P="C07 C05";; C06r3-B) P="C06 C05";; C03r4-A) P="C03 C12";; C05r4-B) P="C05 C13";; C06r4-A) P="C06 C12";; C05r5-B) P="C05 C06";; C05r4-A) P="C05 C07";; C08r5-B) P="C08 C16";; C03r6-B) P="C03 C12";; C05r6-A) P="C05 C14";; C05r6-B) P="C05 C08";; C06r6-B) P="C06 C19";; C12r6-B) P="C12 C01";; C16r6-B) P="C16 C08";; C03r7-A) P="C03 C09";; C06r7-A) P="C06 C05";; C07r7-B) P="C07 C05";; C08r7-A) P="C08 C16";; C09r7-A) P="C09 C01";; C12r7-A) P="C12 C05";; C12r7-B) P="C12 C10";; C18r7-B) P="C18 C14";; C07r8-B) P="C07 C02";; C12r8-B) P="C12 C03";; esac
   echo "$id $P"
 done > /tmp/mv/all.list
+# ONLY="C05|C06": restrict the run to changes one of whose checks matches (the
+# logs of the others are kept as they are).
+if [ -n "${ONLY:-}" ]; then grep -E " .*(${ONLY})" /tmp/mv/all.list > /tmp/mv/all.list.f; mv /tmp/mv/all.list.f /tmp/mv/all.list; fi
 mkdir -p /tmp/mv/all
 cat /tmp/mv/all.list | xargs -P 7 -L 1 bash -c 'id=$0; shift 0; props="${@}"; /verif/tools/try_mutant.sh all-$id /verif/seeded/$id/patch.diff '"$TIER"' $props > /tmp/mv/all/$id.log 2>&1'
 echo "id | suite | result"
